@@ -103,7 +103,7 @@ def gen_case(run_seed, tier):
         elif k == "rem":
             hist.append(["rem", a, det, bit])
         elif k == "tensor":
-            hist.append(["tensor", wl.randrange(4)])
+            hist.append(["tensor", wl.randrange(6)])
         elif k == "ptrace":
             hist.append(["ptrace", a, wl.randint(1, 3), det, [wl.randrange(2) for _ in range(3)]])
     gseed = sz.randrange(10**6)
@@ -498,8 +498,25 @@ def run_case(case):
             elif k == "tensor":
                 if n >= NMAX - 2:
                     continue
-                kind = st[1] % 4
-                if kind == 0:
+                kind = st[1] % 6
+                if kind >= 4:
+                    # an operand with a history of its own (gates and a random-outcome measurement: its destabilizers
+                    # then carry i-phases), 2-3 qubits
+                    rr = random.Random(st[1] * 7919 + step)
+                    m2 = 2 + kind % 2
+                    t2 = sfc.create_n_ket0_state(m2)
+                    for _ in range(8):
+                        q2 = rr.randrange(m2)
+                        g2 = rr.choice(["H", "P", "H", "CNOT", "M"])
+                        if g2 == "CNOT":
+                            t2 = tr.cnot_gate(t2, q2, (q2 + 1) % m2)
+                        elif g2 == "M":
+                            with OwnedRNG(random.Random(0), outcomes=OutcomeScript([rr.randrange(2)], fallback=0), ctx=ctx):
+                                t2, _, _ = sfc.z_measurement_gate(t2, q2, "probabilistic")
+                        else:
+                            t2 = G1[g2](t2, q2)
+                    ctx.probe("tensor_operand_with_history")
+                elif kind == 0:
                     t2 = sfc.create_n_ket0_state(1)
                 elif kind == 1:
                     t2 = sfc.create_n_plus_state(2)
@@ -509,7 +526,10 @@ def run_case(case):
                     t2 = sfc.create_n_plus_state(2)
                     t2 = tr.control_z_gate(t2, 0, 1)
                     t2 = tr.z_gate(t2, 0)
-                r2, _ = import_ref(t2)
+                r2, ips2 = import_ref(t2)
+                if any(ips2) or v1_v2(t2) or not r2.is_valid():
+                    ctx.probe("tensor_operand_invalid_skipped")
+                    continue
                 t0 = sut.tab
                 out = sfc.tensor([t0, t2])
                 if out is not t0:
